@@ -1,0 +1,96 @@
+//go:build verif
+
+// Contracts for govc (comment-only file; see /verif/DESIGN.md section 3).
+package polynomial
+
+// A usable polynomial in the exponent: group set, all coefficients present.
+//@ pred expok(p *Exponent) := p != nil && p.group != nil && each(p.coefficients, c, c != nil)
+
+//@ func EmptyExponent
+//@   nopanic[C05]
+//@   modifies nothing
+//@   allocates
+//@   ensures result != nil && result.group == group && len(result.coefficients) == 0
+
+// Restoring a polynomial from arbitrary bytes: no panic and no allocation larger than the input.
+//@ func (*Exponent).UnmarshalBinary
+//@   nopanic[C05,C15]
+//@   allocbound[C05] len(data)
+
+//@ func (*Exponent).MarshalBinary
+//@   nopanic[C05]
+//@   requires e != nil
+
+//@ func (*Exponent).WriteTo
+//@   nopanic[C05]
+//@   requires p != nil && w != nil
+
+//@ func (*Exponent).Degree
+//@   nopanic[C05]
+//@   requires p != nil
+//@   modifies nothing
+//@   ensures p.IsConstant ==> result == len(p.coefficients)
+//@   ensures !p.IsConstant ==> result == len(p.coefficients) - 1
+
+//@ func (*Exponent).Constant
+//@   nopanic[C05]
+//@   requires expok(p) && (p.IsConstant || len(p.coefficients) > 0)
+//@   modifies nothing
+//@   allocates
+//@   ensures result != nil
+
+//@ func (*Exponent).Evaluate
+//@   nopanic[C05]
+//@   requires expok(p) && x != nil
+//@   modifies nothing
+//@   allocates
+//@   ensures result != nil
+//@   loop 1: invariant result != nil
+
+//@ func (*Exponent).Equal
+//@   nopanic[C05]
+//@   requires expok(p) && each(other.coefficients, c, c != nil)
+//@   modifies nothing
+
+//@ func (*Exponent).copy
+//@   nopanic[C05]
+//@   requires p != nil && each(p.coefficients, c, c != nil)
+//@   ensures each(result.coefficients, c, c != nil) && result != nil && fresh(result) && fresh(result.coefficients)
+//@   loop 1: invariant each(q.coefficients, c, c != nil)
+//@   modifies nothing
+//@   allocates
+//@   loop 1: invariant fresh(q.coefficients)
+//@   loop 1: invariant q != nil && q.group == p.group && q.IsConstant == p.IsConstant && len(q.coefficients) == i && i <= len(p.coefficients)
+//@   ensures result != nil && result.group == p.group && result.IsConstant == p.IsConstant && len(result.coefficients) == len(p.coefficients)
+
+// add is executed inside Sum (inlined); its loop keeps all coefficients present
+//@ func (*Exponent).add
+//@   inline
+//@   loop 1: invariant each(p.coefficients, c, c != nil)
+//@   loop 1: invariant each(q.coefficients, c, c != nil)
+//@   loop 1: invariant fresh(p.coefficients)
+
+//@ func Sum
+//@   nopanic[C05]
+//@   requires len(polynomials) > 0 && each(polynomials, q, expok(q))
+//@   loop 1: invariant summed != nil && each(summed.coefficients, c, c != nil) && fresh(summed.coefficients)
+
+//@ func (*Polynomial).Evaluate
+//@   nopanic[C05]
+//@   requires p != nil && p.group != nil && index != nil && each(p.coefficients, c, c != nil)
+//@   panic_unreachable_under_requires
+//@   modifies nothing
+//@   allocates
+//@   ensures result != nil
+
+//@ func (*Polynomial).Constant
+//@   nopanic[C05]
+//@   requires p != nil && p.group != nil && len(p.coefficients) > 0 && p.coefficients[0] != nil
+//@   modifies nothing
+//@   allocates
+//@   ensures result != nil
+
+//@ func (*Polynomial).Degree
+//@   nopanic[C05]
+//@   requires p != nil
+//@   modifies nothing
